@@ -182,7 +182,43 @@ class _State:
         return None
 
     # ------------------------------------------------------------------------------------ copying a callee
-    def copy_body(self, callee, like, depth, stack, captures=None, args=None, line=0):
+    @staticmethod
+    def generic_subst(callee, call_callee):
+        """{type parameter name: type at this call site} when the callee's type parameters can be read off its
+        signature (bare identifiers such as `T`, `K`) and match the call's generic arguments in number."""
+        targs = [a for a in (call_callee.get("args") or []) if isinstance(a, str) and not a.startswith("'")]
+        names = []
+        for t in list(callee.get("sig_in") or []) + [callee.get("sig_out") or ""]:
+            for m in re.finditer(r"(?<![\w:])([A-Z]\w*)(?![\w:<])", t or ""):
+                if m.group(1) not in names and m.group(1) not in ("Self",):
+                    names.append(m.group(1))
+        if not names or len(names) != len(targs):
+            return None
+        return dict(zip(names, targs))
+
+    @staticmethod
+    def _apply_subst(obj, subst):
+        pat = re.compile(r"(?<![\w:])(" + "|".join(re.escape(k) for k in subst) + r")(?![\w:<])")
+
+        def fix(x):
+            if isinstance(x, str):
+                return pat.sub(lambda m: subst[m.group(1)], x)
+            if isinstance(x, list):
+                return [fix(y) for y in x]
+            return x
+        def walk(o):
+            if isinstance(o, dict):
+                for k in list(o):
+                    if k in ("self_ty", "args", "resolved", "ty", "resolved_args") and o[k] is not None:
+                        o[k] = fix(o[k])
+                    else:
+                        walk(o[k])
+            elif isinstance(o, list):
+                for y in o:
+                    walk(y)
+        walk(obj)
+
+    def copy_body(self, callee, like, depth, stack, captures=None, args=None, line=0, subst=None):
         """Append a copy of `callee`'s blocks and locals. `captures`: operands for the environment fields
         (`_1.i`), `args`: operands for the ordinary parameters. Returns (entry_bb, ret_local, [return block ids],
         prologue statements to run before entry)."""
@@ -227,8 +263,13 @@ class _State:
             return {"l": l + loff, "p": [self._map_proj(x, loff) for x in p]}
 
         rets = []
+        if subst:
+            for l in self.locals[loff:loff + len(callee["locals"])]:
+                self._apply_subst(l, subst)
         for i, b in enumerate(callee["blocks"]):
             nb = copy.deepcopy(b)
+            if subst:
+                self._apply_subst(nb, subst)
             self._walk(nb, map_place, boff)
             nb["src"] = {"fn": callee["path"], "bb": i, "file": callee["file"]}
             self.blocks.append(nb)
@@ -347,7 +388,8 @@ class _State:
 
     def _inline_sync(self, i, b, t, callee, depth, stack):
         line = t.get("line", 0)
-        entry, loff, rets, pro = self.copy_body(callee, i, depth + 1, stack + (callee["path"],), args=t["ops"], line=line)
+        subst = self.generic_subst(callee, t.get("callee") or {})
+        entry, loff, rets, pro = self.copy_body(callee, i, depth + 1, stack + (callee["path"],), args=t["ops"], line=line, subst=subst)
         b["stmts"] = b["stmts"] + pro
         dest, target = t["dest"], t["t"]
         for r in rets:
